@@ -7,6 +7,10 @@
       `CInv` for a bare `CommHandler`, and their preservation by every `step` / `commStep`,
     * the extra invariant of histories in which the device acknowledges everything (`AInv`),
     * what a call on a disconnected handler can do (`step_off`), what `disconnect` does to the device,
+    * connect with its result (`commConnectR`): `off_connect` (every channel name decodes: `badNameIdx … = none`),
+      `off_connect_bad` (a name is not UTF-8: the call raises and the handler stays switched off), `c_connectR`;
+      `rep` is the description as a connect reports it (names cut at the first NUL), `rep_of_nonul` / `badNameIdx_none`
+      relate it to the device's description when the names are valid UTF-8 without NUL (Props/C09 `DescOk`),
     * `run_append`, snoc induction over histories, and the run-level statements (`c09_*`, `c11_*`).
   Configuration facts come from Lemmas/Config.lean (`Inv`, `AckState`, `DoubtEn`, `channelsWrite_ack`, …).
 -/
@@ -272,12 +276,18 @@ structure Base (n flags : Nat) (desc : Desc) (w : World) : Prop where
   fl : w.flags = flags
   ds : w.desc = desc
 
-/-- the static description of an `n`-channel device with these flags -/
-def rep (n flags : Nat) (desc : Desc) : Reported := ⟨n, flags, desc.rxpadding, desc.chans⟩
+/-- the static description of an `n`-channel device with these flags, as a connect reports it (names as the client
+    decodes them: cut at the first NUL) -/
+def rep (n flags : Nat) (desc : Desc) : Reported := ⟨n, flags, desc.rxpadding, desc.chans.map ChanDesc.decoded⟩
 
 theorem Base.describe {n flags : Nat} {desc : Desc} {w : World} (h : Base n flags desc w) :
     describe w = rep n flags desc := by
   unfold Lifecycle.describe rep; rw [h.len, h.fl, h.ds]
+
+/-- in every reachable world the first undecodable channel name is the one of the device's static description -/
+theorem Base.badName {n flags : Nat} {desc : Desc} {w : World} (h : Base n flags desc w) :
+    badName w = badNameIdx n desc := by
+  unfold Lifecycle.badName; rw [h.len, h.ds]
 
 theorem ackOp_of_nonwrite (op : Op) (h : ∀ a b, op ≠ .write a b) : AckOp op := by
   cases op <;> first | trivial | exact absurd rfl (h _ _)
@@ -410,7 +420,10 @@ theorem step_streamStart (w : World) (a : Ans) : step w .streamStart a =
 
 theorem step_connect (w : World) (a : Ans) : step w .connect a =
     if w.connected then (w, .ok)
-    else ({ commConnect w with subs := List.replicate (commConnect w).dev.en.length [], connected := true }, .ok) := rfl
+    else
+      match commConnectR w with
+      | (w1, .ok) => ({ w1 with subs := List.replicate w1.dev.en.length [], connected := true }, .ok)
+      | (w1, r) => (w1, r) := rfl
 
 theorem step_disconnect (w : World) (a : Ans) : step w .disconnect a =
     if w.connected then
@@ -453,6 +466,52 @@ theorem commDisconnect_started (w : World) (h : w.commStarted = true) : commDisc
 
 theorem commDisconnect_stopped (w : World) (h : w.commStarted = false) : commDisconnect w = w := by
   unfold commDisconnect; rw [h]; rfl
+
+/-! ### `CommHandler.connect()` with its result: a channel name that is not UTF-8 makes it raise -/
+
+theorem commConnectR_started (w : World) (h : w.commStarted = true) : commConnectR w = (w, .ok) := by
+  unfold commConnectR; rw [h]; rfl
+
+/-- every name decodes: connect goes through -/
+theorem commConnectR_ok (w : World) (h : badName w = none) : commConnectR w = (commConnect w, .ok) := by
+  cases hs : w.commStarted with
+  | true => rw [commConnectR_started w hs, commConnect_started w hs]
+  | false => unfold commConnectR; rw [hs, h]; rfl
+
+/-- channel `k` has a name that does not decode: connect raises and leaves the handler stopped -/
+theorem commConnectR_bad (w : World) (k : Nat) (hs : w.commStarted = false) (h : badName w = some k) :
+    commConnectR w = (commConnectFail w k, .raised .unicodeError) := by
+  unfold commConnectR; rw [hs, h]; rfl
+
+/-- the three cases of `commConnectR` -/
+theorem commConnectR_cases (w : World) :
+    commConnectR w = (commConnect w, .ok) ∨
+    ∃ k, w.commStarted = false ∧ badName w = some k ∧ commConnectR w = (commConnectFail w k, .raised .unicodeError) := by
+  cases hb : badName w with
+  | none => exact Or.inl (commConnectR_ok w hb)
+  | some k =>
+    cases hs : w.commStarted with
+    | true => left; rw [commConnectR_started w hs, commConnect_started w hs]
+    | false => exact Or.inr ⟨k, rfl, rfl, commConnectR_bad w k hs hb⟩
+
+theorem commConnectFail_eq (w : World) (k : Nat) : commConnectFail w k =
+    { w with devStarted := false,
+             log := w.log ++ okFrame (Requests.frameStart false) ++ okFrame Requests.frameCmninfo ++ padWrite w ++
+                      chinfoFrames 0 (k + 1),
+             time := w.time + drain + drain,
+             intfPad := if w.desc.rxpadding > 0 then w.desc.rxpadding else w.intfPad } := rfl
+
+/-- connect on a disconnected handler in front of a device whose names all decode -/
+theorem step_connect_ok (w : World) (a : Ans) (hc : w.connected = false) (hb : badName w = none) :
+    step w .connect a =
+      ({ commConnect w with subs := List.replicate (commConnect w).dev.en.length [], connected := true }, .ok) := by
+  rw [step_connect, hc, if_neg Bool.false_ne_true, commConnectR_ok w hb]
+
+/-- connect on a switched-off handler in front of a device with an undecodable name: the exception of the low-level
+    connect propagates -/
+theorem step_connect_bad (w : World) (a : Ans) (k : Nat) (hc : w.connected = false) (hs : w.commStarted = false)
+    (hb : badName w = some k) : step w .connect a = (commConnectFail w k, .raised .unicodeError) := by
+  rw [step_connect, hc, if_neg Bool.false_ne_true, commConnectR_bad w k hs hb]
 
 /-! ### the high-level handler's two states, any answers of the device -/
 
@@ -596,13 +655,14 @@ theorem g_disconnect {n flags : Nat} {desc : Desc} {w : World} (h : GInv n flags
 
 /-- connect on a switched-off handler: handshake (which stops a stream left running), fresh client, the device's
     static description reported -/
-theorem off_connect {n flags : Nat} {desc : Desc} {w : World} (h : GInv n flags desc w) (hoff : Off w) (a : Ans) :
+theorem off_connect {n flags : Nat} {desc : Desc} {w : World} (h : GInv n flags desc w) (hoff : Off w) (a : Ans)
+    (hbn : badNameIdx n desc = none) :
     GInv n flags desc (step w .connect a).1 ∧ GOn flags (rep n flags desc) (step w .connect a).1 ∧
     (step w .connect a).1.devStarted = false ∧ (step w .connect a).1.dev = w.dev ∧
     (step w .connect a).1.cli = some (Client.init w.dev flags) ∧
-    (step w .connect a).1.streamStarted = false := by
+    (step w .connect a).1.streamStarted = false ∧ (step w .connect a).2 = .ok := by
   obtain ⟨h1, h3, h7, -, -, -, h6, -⟩ := hoff
-  rw [step_connect, h1, if_neg Bool.false_ne_true, commConnect_stopped w h6]
+  rw [step_connect_ok w a h1 (h.base.badName.trans hbn), commConnect_stopped w h6]
   have hcli : CliInv flags
       { w with intf := true, devStarted := false, recvThr := true,
                log := w.log ++ okFrame (Requests.frameStart false) ++ okFrame Requests.frameCmninfo ++ padWrite w ++
@@ -613,11 +673,46 @@ theorem off_connect {n flags : Nat} {desc : Desc} {w : World} (h : GInv n flags 
                cli := some (Client.init w.dev w.flags), commStarted := true,
                subs := List.replicate w.dev.en.length [], connected := true } :=
     CliInv.init h.base.wf (by rw [h.base.fl])
-  refine (fun hon => ⟨⟨⟨h.base.wf, h.base.len, h.base.fl, h.base.ds⟩, Or.inr hon⟩, hon, rfl, rfl, ?_, h7⟩ :
+  refine (fun hon => ⟨⟨⟨h.base.wf, h.base.len, h.base.fl, h.base.ds⟩, Or.inr hon⟩, hon, rfl, rfl, ?_, h7, rfl⟩ :
     GOn flags (rep n flags desc) _ → _) ?_
   · exact ⟨rfl, h3.trans h7.symm, rfl, rfl, rfl, rfl, by rw [h.base.describe], hcli⟩
   · show some (Client.init w.dev w.flags) = _
     rw [h.base.fl]
+
+/-- connect on a switched-off handler in front of a device whose channel `k` has a name that is not UTF-8: the call
+    raises, the handler stays switched off (nothing running, no description, configuration state untouched); the
+    stop request has been sent (a stream left running is stopped), the device's configuration is untouched -/
+theorem off_connect_bad {n flags : Nat} {desc : Desc} {w : World} (h : GInv n flags desc w) (hoff : Off w) (a : Ans)
+    (k : Nat) (hbn : badNameIdx n desc = some k) :
+    GInv n flags desc (step w .connect a).1 ∧ Off (step w .connect a).1 ∧
+    (step w .connect a).1.devStarted = false ∧ (step w .connect a).1.dev = w.dev ∧
+    (step w .connect a).1.cli = w.cli ∧ (step w .connect a).1.time = w.time + drain + drain ∧
+    (step w .connect a).2 = .raised .unicodeError := by
+  have hoff' := hoff
+  obtain ⟨h1, h3, h7, h4, h5, h8, h6, h9⟩ := hoff
+  rw [step_connect_bad w a k h1 h6 (h.base.badName.trans hbn), commConnectFail_eq]
+  have hoff2 : Off
+      { w with devStarted := false,
+               log := w.log ++ okFrame (Requests.frameStart false) ++ okFrame Requests.frameCmninfo ++ padWrite w ++
+                        chinfoFrames 0 (k + 1),
+               time := w.time + drain + drain,
+               intfPad := if w.desc.rxpadding > 0 then w.desc.rxpadding else w.intfPad } := hoff'
+  exact ⟨⟨⟨h.base.wf, h.base.len, h.base.fl, h.base.ds⟩, Or.inl hoff2⟩, hoff2, rfl, rfl, rfl, rfl, rfl⟩
+
+/-- connect on a switched-off handler, either way: the invariant is kept, the device's stream is stopped and its
+    configuration untouched; the handler is switched on exactly when the call returns -/
+theorem off_connect_any {n flags : Nat} {desc : Desc} {w : World} (h : GInv n flags desc w) (hoff : Off w) (a : Ans) :
+    GInv n flags desc (step w .connect a).1 ∧ (step w .connect a).1.devStarted = false ∧
+    (step w .connect a).1.dev = w.dev ∧
+    (((step w .connect a).1.connected = true ∧ badNameIdx n desc = none) ∨
+     ((step w .connect a).1.connected = false ∧ ∃ k, badNameIdx n desc = some k)) := by
+  cases hbn : badNameIdx n desc with
+  | none =>
+    obtain ⟨e1, e2, e3, e4, -⟩ := off_connect h hoff a hbn
+    exact ⟨e1, e3, e4, Or.inl ⟨e2.1, rfl⟩⟩
+  | some k =>
+    obtain ⟨e1, e2, e3, e4, -⟩ := off_connect_bad h hoff a k hbn
+    exact ⟨e1, e3, e4, Or.inr ⟨e2.1, k, rfl⟩⟩
 
 /-- every call other than disconnect keeps a switched-on handler switched on -/
 theorem g_step {n flags : Nat} {desc : Desc} {w : World} (h : GInv n flags desc w)
@@ -692,7 +787,7 @@ theorem step_ginv {n flags : Nat} {desc : Desc} {w : World} (h : GInv n flags de
     GInv n flags desc (step w c a).1 := by
   rcases h.mode with hoff | hon
   · by_cases hc : c = .connect
-    · subst hc; exact (off_connect h hoff a).1
+    · subst hc; exact (off_connect_any h hoff a).1
     · obtain ⟨h1, -, h3, -, -, h6, h7, -⟩ := step_off w c a hc hoff
       exact ⟨⟨h3 ▸ h.base.wf, h3 ▸ h.base.len, h6.trans h.base.fl, h7.trans h.base.ds⟩, Or.inl h1⟩
   · by_cases hc : c = .disconnect
@@ -740,7 +835,7 @@ theorem c_guard {n flags : Nat} {desc : Desc} {w : World} (h : CInv n flags desc
   · exact h
   · exact c_cfg h op false a hop
 
-theorem commStep_connect (w : World) (a : Ans) : commStep w .connect a = (commConnect w, .ok) := rfl
+theorem commStep_connect (w : World) (a : Ans) : commStep w .connect a = commConnectR w := rfl
 theorem commStep_disconnect (w : World) (a : Ans) : commStep w .disconnect a = (commDisconnect w, .ok) := rfl
 theorem commStep_streamStart (w : World) (a : Ans) : commStep w .streamStart a =
     ((commStartReq w true a.st).1, .ack (commStartReq w true a.st).2.1 (commStartReq w true a.st).2.2) := rfl
@@ -773,6 +868,42 @@ theorem c_connect {n flags : Nat} {desc : Desc} {w : World} (h : CInv n flags de
     exact ⟨rfl, rfl, rfl, rfl, by rw [h.base.describe], hcli⟩
   · rw [commConnect_started w hon.2.2.2.1]; exact ⟨h, hon⟩
 
+/-- the low-level connect in front of a device whose channel `k` has a name that is not UTF-8: the handler stays
+    stopped -/
+theorem c_connect_fail {n flags : Nat} {desc : Desc} {w : World} (h : CInv n flags desc w) (hoff : COff w) (k : Nat) :
+    CInv n flags desc (commConnectFail w k) ∧ COff (commConnectFail w k) := by
+  rw [commConnectFail_eq]
+  have hoff2 : COff
+      { w with devStarted := false,
+               log := w.log ++ okFrame (Requests.frameStart false) ++ okFrame Requests.frameCmninfo ++ padWrite w ++
+                        chinfoFrames 0 (k + 1),
+               time := w.time + drain + drain,
+               intfPad := if w.desc.rxpadding > 0 then w.desc.rxpadding else w.intfPad } := hoff
+  exact ⟨⟨⟨h.base.wf, h.base.len, h.base.fl, h.base.ds⟩, h.hi, Or.inl hoff2⟩, hoff2⟩
+
+/-- the low-level connect with its result keeps the invariant; it leaves the handler started when every name
+    decodes, and as it was (stopped) when it raises -/
+theorem c_connectR {n flags : Nat} {desc : Desc} {w : World} (h : CInv n flags desc w) :
+    CInv n flags desc (commConnectR w).1 ∧
+    (badNameIdx n desc = none → COn flags (rep n flags desc) (commConnectR w).1 ∧ (commConnectR w).2 = .ok) ∧
+    (w.commStarted = false → ∀ k, badNameIdx n desc = some k →
+      COff (commConnectR w).1 ∧ (commConnectR w).2 = .raised .unicodeError) := by
+  rcases commConnectR_cases w with e | ⟨k, hs, hb, e⟩
+  · rw [e]
+    refine ⟨(c_connect h).1, fun _ => ⟨(c_connect h).2, rfl⟩, fun hs k hk => ?_⟩
+    have e2 := commConnectR_bad w k hs (h.base.badName.trans hk)
+    rw [e] at e2
+    have e3 : Res.ok = Res.raised Err.unicodeError := congrArg Prod.snd e2
+    exact nomatch e3
+  · rw [e]
+    have hoff : COff w := by
+      rcases h.mode with hoff | hon
+      · exact hoff
+      · exact absurd (hon.2.2.2.1.symm.trans hs) (by decide)
+    refine ⟨(c_connect_fail h hoff k).1, fun hn => ?_, fun _ _ _ => ⟨(c_connect_fail h hoff k).2, rfl⟩⟩
+    rw [h.base.badName, hn] at hb
+    exact absurd hb (by simp)
+
 theorem c_disconnect {n flags : Nat} {desc : Desc} {w : World} (h : CInv n flags desc w) :
     CInv n flags desc (commDisconnect w) ∧ COff (commDisconnect w) := by
   rcases h.mode with hoff | hon
@@ -783,7 +914,7 @@ theorem c_disconnect {n flags : Nat} {desc : Desc} {w : World} (h : CInv n flags
 theorem commStep_cinv {n flags : Nat} {desc : Desc} {w : World} (h : CInv n flags desc w) (c : CommCall) (a : Ans) :
     CInv n flags desc (commStep w c a).1 := by
   cases c with
-  | connect => exact (c_connect h).1
+  | connect => exact (c_connectR h).1
   | disconnect => exact (c_disconnect h).1
   | streamStart => rw [commStep_streamStart]; exact c_startReq h true a.st
   | streamStop => rw [commStep_streamStop]; exact c_startReq h false a.st
@@ -986,8 +1117,11 @@ theorem a_step {n flags : Nat} {desc : Desc} {w : World} (h : GInv n flags desc 
   rcases h.mode with hoff | hon
   · by_cases hc : c = .connect
     · subst hc
-      obtain ⟨-, -, e1, e2, e3, e4⟩ := off_connect h hoff {}
-      exact ⟨e1.trans e4.symm, _, e3, e2 ▸ CState.init w.dev flags h.base.wf⟩
+      cases hbn : badNameIdx n desc with
+      | none =>
+        obtain ⟨-, -, e1, e2, e3, e4, -⟩ := off_connect h hoff {} hbn
+        exact ⟨e1.trans e4.symm, _, e3, e2 ▸ CState.init w.dev flags h.base.wf⟩
+      | some k => exact absurd ((off_connect_bad h hoff {} k hbn).2.1.1.symm.trans hc') (by decide)
     · exact absurd ((step_off w c {} hc hoff).1.1.symm.trans hc') (by decide)
   · have hA := hA hon.1
     have hh := hon.2.2.2.2.1
@@ -1044,18 +1178,19 @@ theorem a_step {n flags : Nat} {desc : Desc} {w : World} (h : GInv n flags desc 
       rw [e]; exact hA
 
 /-- history predicate: once a connect has occurred, a disconnected handler has left the device with the
-    stream stopped and every channel disabled -/
+    stream stopped and every channel disabled (kept by every call when connects succeed, i.e. when every channel
+    name of the device decodes: a connect that raises leaves the channels as they were) -/
 def Hist (seen : Prop) (w : World) : Prop :=
   seen → w.connected = false → w.devStarted = false ∧ ∀ b ∈ w.dev.en, b = false
 
 theorem step_hist {n flags : Nat} {desc : Desc} {w : World} (h : GInv n flags desc w)
-    (hA : w.connected = true → AOn flags w) (l : List Call) (c : Call)
+    (hA : w.connected = true → AOn flags w) (l : List Call) (c : Call) (hbn : badNameIdx n desc = none)
     (hH : Hist (Call.connect ∈ l) w) : Hist (Call.connect ∈ l ++ [c]) (step w c).1 := by
   intro hm hdis
   rcases h.mode with hoff | hon
   · by_cases hc : c = .connect
     · subst hc
-      exact absurd ((off_connect h hoff {}).2.1.1.symm.trans hdis) (by decide)
+      exact absurd ((off_connect h hoff {} hbn).2.1.1.symm.trans hdis) (by decide)
     · obtain ⟨-, -, h3, h4, -⟩ := step_off w c {} hc hoff
       have hl : Call.connect ∈ l := by
         rcases List.mem_append.mp hm with hm | hm
@@ -1073,15 +1208,16 @@ theorem reach (d0 : Device) (started : Bool) (flags : Nat) (desc : Desc) (hd : W
     GInv d0.en.length flags desc (run (World.fresh d0 started flags desc) calls).1 ∧
     ((run (World.fresh d0 started flags desc) calls).1.connected = true →
       AOn flags (run (World.fresh d0 started flags desc) calls).1) ∧
-    Hist (Call.connect ∈ calls) (run (World.fresh d0 started flags desc) calls).1 := by
+    (badNameIdx d0.en.length desc = none →
+      Hist (Call.connect ∈ calls) (run (World.fresh d0 started flags desc) calls).1) := by
   induction calls using snoc_induction with
   | nil =>
     refine ⟨fresh_ginv d0 started flags desc hd, ?_, ?_⟩
     · intro h; exact Bool.noConfusion (h : false = true)
-    · intro hm; exact absurd hm List.not_mem_nil
+    · intro _ hm; exact absurd hm List.not_mem_nil
   | snoc l c ih =>
     rw [run_snoc]
-    exact ⟨step_ginv ih.1 c {}, a_step ih.1 ih.2.1 c, step_hist ih.1 ih.2.1 l c ih.2.2⟩
+    exact ⟨step_ginv ih.1 c {}, a_step ih.1 ih.2.1 c, fun hbn => step_hist ih.1 ih.2.1 l c hbn (ih.2.2 hbn)⟩
 
 /-! ### bounded time of every call -/
 
@@ -1097,6 +1233,14 @@ theorem commConnect_time (w : World) : (commConnect w).time ≤ w.time + 16 := b
   | true => rw [commConnect_started w h]; exact Nat.le_add_right _ _
   | false =>
     rw [commConnect_stopped w h]
+    show w.time + drain + drain ≤ w.time + 16
+    rw [drain_eq]
+    exact Nat.le_refl _
+
+theorem commConnectR_time (w : World) : (commConnectR w).1.time ≤ w.time + 16 := by
+  rcases commConnectR_cases w with e | ⟨k, -, -, e⟩
+  · rw [e]; exact commConnect_time w
+  · rw [e]
     show w.time + drain + drain ≤ w.time + 16
     rw [drain_eq]
     exact Nat.le_refl _
@@ -1121,7 +1265,14 @@ theorem step_bounded (w : World) (c : Call) (a : Ans) : (step w c a).1.time ≤ 
     rw [step_connect]
     split
     · exact same
-    · exact Nat.le_trans (commConnect_time w) (by omega)
+    · have ht := commConnectR_time w
+      generalize commConnectR w = r at *
+      obtain ⟨w1, res⟩ := r
+      dsimp only at ht
+      cases res with
+      | ok => show w1.time ≤ w.time + 38; omega
+      | raised e => show w1.time ≤ w.time + 38; omega
+      | ack s code => show w1.time ≤ w.time + 38; omega
   | disconnect =>
     rw [step_disconnect]
     split
@@ -1196,7 +1347,7 @@ theorem commStep_bounded (w : World) (c : CommCall) (a : Ans) : (commStep w c a)
     · exact same
     · exact cfg op
   cases c with
-  | connect => exact Nat.le_trans (commConnect_time w) (by omega)
+  | connect => rw [commStep_connect]; exact Nat.le_trans (commConnectR_time w) (by omega)
   | disconnect => exact Nat.le_trans (commDisconnect_time w) (by omega)
   | streamStart => rw [commStep_streamStart]; exact Nat.le_trans (commStartReq_time w true a.st).2 (by omega)
   | streamStop => rw [commStep_streamStop]; exact Nat.le_trans (commStartReq_time w false a.st).2 (by omega)
@@ -1280,7 +1431,7 @@ theorem c09_disconnected_is_inert (d0 : Device) (started : Bool) (flags : Nat) (
   · exact absurd (hon.1.symm.trans hdis) (by decide)
 
 theorem c09_reconnect_same_description_any (d0 : Device) (started : Bool) (flags : Nat) (desc : Desc)
-    (hist : List (Call × Ans)) (a : Ans) (hd : WF d0) :
+    (hist : List (Call × Ans)) (a : Ans) (hd : WF d0) (hbn : badNameIdx d0.en.length desc = none) :
     let w := (runA (World.fresh d0 started flags desc) (hist ++ [(.connect, a)])).1
     w.connected = true ∧ w.reported = some (rep d0.en.length flags desc) ∧ w.dev.en.length = d0.en.length ∧
     w.flags = flags ∧ w.desc = desc := by
@@ -1291,7 +1442,7 @@ theorem c09_reconnect_same_description_any (d0 : Device) (started : Bool) (flags
     show GOn flags _ (runA _ (hist ++ [(.connect, a)])).1
     rw [runA_snoc]
     rcases h.mode with hoff | hon
-    · exact (off_connect h hoff a).2.1
+    · exact (off_connect h hoff a hbn).2.1
     · exact (g_step h hon .connect a (fun e => nomatch e)).2
   exact ⟨hon.1, hon.2.2.2.2.2.2.1, h'.base.len, h'.base.fl, h'.base.ds⟩
 
@@ -1304,7 +1455,7 @@ theorem on_description {n flags : Nat} {desc : Desc} {w : World} (h : GInv n fla
   exact ⟨c, hc, hS.inv.lDevEn.symm.trans h.base.len, he.symm, hS.inv.cpEn.trans he.symm, hS.divS, ha⟩
 
 theorem c09_reconnect_same_description (d0 : Device) (started : Bool) (flags : Nat) (desc : Desc) (calls : List Call)
-    (hd : WF d0) :
+    (hd : WF d0) (hbn : badNameIdx d0.en.length desc = none) :
     let w := (run (World.fresh d0 started flags desc) (calls ++ [.connect])).1
     w.dev.en.length = d0.en.length ∧ w.flags = flags ∧
     (∃ c, w.cli = some c ∧ c.n = d0.en.length ∧ c.enNow = w.dev.en ∧ c.copyEn = w.dev.en ∧
@@ -1317,7 +1468,7 @@ theorem c09_reconnect_same_description (d0 : Device) (started : Bool) (flags : N
     show GOn flags _ (run _ (calls ++ [.connect])).1
     rw [run_snoc]
     rcases h.mode with hoff | hon
-    · exact (off_connect h hoff {}).2.1
+    · exact (off_connect h hoff {} hbn).2.1
     · exact (g_step h hon .connect {} (fun e => nomatch e)).2
   exact ⟨h'.base.len, h'.base.fl, on_description h' (hA' hon.1), hon.2.2.2.2.2.2.1⟩
 
@@ -1338,7 +1489,7 @@ theorem c09_after_disconnect_any (d0 : Device) (started : Bool) (flags : Nat) (d
   exact ⟨hoff.1, f.2.2.2.1, f.2.2.2.2.2.2, f.1, f.2.1, f.2.2.1, f.2.2.2.2.2.1, f.2.2.2.2.1⟩
 
 theorem c09_after_disconnect (d0 : Device) (started : Bool) (flags : Nat) (desc : Desc) (calls : List Call)
-    (hd : WF d0) :
+    (hd : WF d0) (hbn : badNameIdx d0.en.length desc = none) :
     let w := (run (World.fresh d0 started flags desc) (calls ++ [.disconnect])).1
     w.connected = false ∧ w.hasDev = false ∧ w.recvThr = false ∧ w.streamThr = false ∧ w.intf = false ∧
     (Call.connect ∈ calls → w.devStarted = false ∧ ∀ b ∈ w.dev.en, b = false) ∧ w.reported = none := by
@@ -1352,11 +1503,11 @@ theorem c09_after_disconnect (d0 : Device) (started : Bool) (flags : Nat) (desc 
     · rw [step_disconnect_idem _ {} hoff.1]; exact hoff
     · exact (g_disconnect h hon {}).2.1
   have f := hoff.facts
-  exact ⟨hoff.1, f.2.2.2.1, f.1, f.2.1, f.2.2.1, fun hm => hH (List.mem_append_left _ hm) hoff.1, f.2.2.2.2.2.2⟩
+  exact ⟨hoff.1, f.2.2.2.1, f.1, f.2.1, f.2.2.1, fun hm => hH hbn (List.mem_append_left _ hm) hoff.1, f.2.2.2.2.2.2⟩
 
 theorem c09_connect_stops_stream (d0 : Device) (flags : Nat) (desc : Desc) (hd : WF d0) :
     (run (World.fresh d0 true flags desc) [.connect]).1.devStarted = false :=
-  (off_connect (fresh_ginv d0 true flags desc hd) ⟨rfl, rfl, rfl, rfl, rfl, rfl, rfl, rfl⟩ {}).2.2.1
+  (off_connect_any (fresh_ginv d0 true flags desc hd) ⟨rfl, rfl, rfl, rfl, rfl, rfl, rfl, rfl⟩ {}).2.1
 
 /-! #### the bare low-level handler -/
 
@@ -1376,7 +1527,7 @@ theorem c09_comm_state_machine (d0 : Device) (started : Bool) (flags : Nat) (des
       fun _ => ⟨hon.1, hon.2.1, hon.2.2.1, hon.2.2.2.2.1⟩, h.hi.2.1⟩
 
 theorem c09_comm_reconnect_same_description (d0 : Device) (started : Bool) (flags : Nat) (desc : Desc)
-    (hist : List (CommCall × Ans)) (a : Ans) (hd : WF d0) :
+    (hist : List (CommCall × Ans)) (a : Ans) (hd : WF d0) (hbn : badNameIdx d0.en.length desc = none) :
     let w := (commRun (World.fresh d0 started flags desc) (hist ++ [(.connect, a)])).1
     w.commStarted = true ∧ w.reported = some (rep d0.en.length flags desc) := by
   intro w
@@ -1384,7 +1535,7 @@ theorem c09_comm_reconnect_same_description (d0 : Device) (started : Bool) (flag
   have hon : COn flags (rep d0.en.length flags desc) w := by
     show COn flags _ (commRun _ (hist ++ [(.connect, a)])).1
     rw [commRun_snoc]
-    exact (c_connect h).2
+    exact ((c_connectR h).2.1 hbn).1
   exact ⟨hon.2.2.2.1, hon.2.2.2.2.1⟩
 
 theorem c09_comm_after_disconnect (d0 : Device) (started : Bool) (flags : Nat) (desc : Desc)
@@ -1400,6 +1551,122 @@ theorem c09_comm_after_disconnect (d0 : Device) (started : Bool) (flags : Nat) (
     rw [commRun_snoc]
     exact (c_disconnect h).2
   exact ⟨hoff.2.2.2.1, hoff.2.2.1, hoff.2.2.2.2, hoff.1, hoff.2.1, h'.hi.2.1⟩
+
+/-! #### descriptions with undecodable names, descriptions the client reads back unchanged -/
+
+/-- every channel name is well-formed UTF-8: no connect raises -/
+theorem badNameIdx_none {n : Nat} {desc : Desc} (h : ∀ c ∈ desc.chans, Info.validUtf8 c.name = true) :
+    badNameIdx n desc = none := by
+  unfold badNameIdx
+  rw [List.findIdx?_eq_none_iff]
+  intro c hc
+  rw [h c (List.mem_of_mem_take hc)]
+  rfl
+
+/-- a name field without NUL is reported whole -/
+theorem cstr_of_nonul (bs : Bytes) (h : (0 : Byte) ∉ bs) : Info.cstr bs = bs := by
+  unfold Info.cstr
+  induction bs with
+  | nil => rfl
+  | cons b r ih =>
+    have hb : b ≠ 0 := fun e => h (e ▸ List.mem_cons_self)
+    rw [List.takeWhile_cons_of_pos (by simpa using hb), ih (fun hm => h (List.mem_cons_of_mem _ hm))]
+
+theorem decoded_of_nonul (c : ChanDesc) (h : (0 : Byte) ∉ c.name) : c.decoded = c := by
+  unfold ChanDesc.decoded
+  rw [cstr_of_nonul c.name h]
+
+/-- names without NUL: the reported description is the device's, entry by entry -/
+theorem rep_of_nonul {n flags : Nat} {desc : Desc} (h : ∀ c ∈ desc.chans, (0 : Byte) ∉ c.name) :
+    rep n flags desc = ⟨n, flags, desc.rxpadding, desc.chans⟩ := by
+  unfold rep
+  congr 1
+  conv => rhs; rw [← List.map_id desc.chans]
+  exact List.map_congr_left fun c hc => decoded_of_nonul c (h c hc)
+
+/-- the description of a device about which nothing is said has empty names: they decode -/
+theorem plain_badNameIdx (m n : Nat) : badNameIdx m (Desc.plain n) = none :=
+  badNameIdx_none fun c hc => by
+    have e : c = ⟨10, 1, 0, []⟩ := (List.mem_replicate.mp hc).2
+    rw [e]; rfl
+
+/-- connect on a disconnected handler in front of a device whose channel `k` has a name that is not UTF-8 (after any
+    history): the call raises UnicodeDecodeError and leaves nothing running -/
+theorem c09_connect_bad_name (d0 : Device) (started : Bool) (flags : Nat) (desc : Desc) (hist : List (Call × Ans))
+    (a : Ans) (k : Nat) (hd : WF d0) (hb : badNameIdx d0.en.length desc = some k)
+    (hdis : (runA (World.fresh d0 started flags desc) hist).1.connected = false) :
+    let w := (runA (World.fresh d0 started flags desc) hist).1
+    let r := step w .connect a
+    r.2 = .raised .unicodeError ∧ r.1.connected = false ∧ r.1.recvThr = false ∧ r.1.streamThr = false ∧
+    r.1.intf = false ∧ r.1.hasDev = false ∧ r.1.reported = none ∧ r.1.commStarted = false ∧ r.1.cli = w.cli ∧
+    r.1.dev = w.dev ∧ r.1.time ≤ w.time + 16 := by
+  intro w r
+  have h := reachA d0 started flags desc hd hist
+  rcases h.mode with hoff | hon
+  · obtain ⟨-, o, -, e2, e3, e4, e5⟩ := off_connect_bad h hoff a k hb
+    have f := o.facts
+    refine ⟨e5, o.1, f.1, f.2.1, f.2.2.1, f.2.2.2.1, f.2.2.2.2.2.2, f.2.2.2.2.1, e3, e2, ?_⟩
+    show (step w .connect a).1.time ≤ w.time + 16
+    rw [e4, drain_eq]
+    exact Nat.le_refl _
+  · exact absurd (hon.1.symm.trans hdis) (by decide)
+
+/-- the same for a bare low-level handler that is stopped -/
+theorem c09_comm_connect_bad_name (d0 : Device) (started : Bool) (flags : Nat) (desc : Desc)
+    (hist : List (CommCall × Ans)) (a : Ans) (k : Nat) (hd : WF d0) (hb : badNameIdx d0.en.length desc = some k)
+    (hdis : (commRun (World.fresh d0 started flags desc) hist).1.commStarted = false) :
+    let w := (commRun (World.fresh d0 started flags desc) hist).1
+    let r := commStep w .connect a
+    r.2 = .raised .unicodeError ∧ r.1.connected = false ∧ r.1.recvThr = false ∧ r.1.streamThr = false ∧
+    r.1.intf = false ∧ r.1.hasDev = false ∧ r.1.reported = none ∧ r.1.commStarted = false ∧ r.1.cli = w.cli ∧
+    r.1.dev = w.dev ∧ r.1.time ≤ w.time + 16 := by
+  intro w r
+  have h : CInv d0.en.length flags desc w := reachC d0 started flags desc hd hist
+  obtain ⟨hc, -, hbad⟩ := c_connectR h
+  obtain ⟨o, e⟩ := hbad hdis k hb
+  have ht := commConnectR_time w
+  have e2 := commConnectR_bad w k hdis (h.base.badName.trans hb)
+  refine ⟨e, hc.hi.1, o.1, hc.hi.2.1, o.2.1, o.2.2.1, o.2.2.2.2, o.2.2.2.1, ?_, ?_, ht⟩
+  · show (commConnectR w).1.cli = w.cli
+    rw [e2]; rfl
+  · show (commConnectR w).1.dev = w.dev
+    rw [e2]; rfl
+
+/-- every name decodes: connect, after any history, returns and leaves the handler connected -/
+theorem c09_connect_ok (d0 : Device) (started : Bool) (flags : Nat) (desc : Desc) (hist : List (Call × Ans))
+    (a : Ans) (hd : WF d0) (hbn : badNameIdx d0.en.length desc = none) :
+    let w := (runA (World.fresh d0 started flags desc) hist).1
+    (step w .connect a).2 = .ok ∧ (step w .connect a).1.connected = true := by
+  intro w
+  have h := reachA d0 started flags desc hd hist
+  rcases h.mode with hoff | hon
+  · obtain ⟨-, o, -, -, -, -, e⟩ := off_connect h hoff a hbn
+    exact ⟨e, o.1⟩
+  · show (step w .connect a).2 = .ok ∧ (step w .connect a).1.connected = true
+    rw [step_connect_idem w a hon.1]
+    exact ⟨rfl, hon.1⟩
+
+/-- the low-level handler: every name decodes: connect, after any history, returns and leaves the handler started -/
+theorem c09_comm_connect_ok (d0 : Device) (started : Bool) (flags : Nat) (desc : Desc)
+    (hist : List (CommCall × Ans)) (a : Ans) (hd : WF d0) (hbn : badNameIdx d0.en.length desc = none) :
+    let w := (commRun (World.fresh d0 started flags desc) hist).1
+    (commStep w .connect a).2 = .ok ∧ (commStep w .connect a).1.commStarted = true := by
+  intro w
+  have h : CInv d0.en.length flags desc w := reachC d0 started flags desc hd hist
+  obtain ⟨o, e⟩ := (c_connectR h).2.1 hbn
+  exact ⟨e, o.2.2.2.1⟩
+
+/-- used by Props/C07 (`connect_gives_init`): a connect on a fresh handler in front of a device with the plain
+    description yields the client initialised from the device, the device's configuration untouched, its stream
+    stopped -/
+theorem c07_connect_gives_init (d0 : Device) (started : Bool) (flags : Nat) :
+    let w := (run (World.fresh d0 started flags) [.connect]).1
+    w.cli = some (Client.init d0 flags) ∧ w.dev = d0 ∧ w.devStarted = false := by
+  intro w
+  have e : w = (step (World.fresh d0 started flags) .connect).1 := rfl
+  have hb : badName (World.fresh d0 started flags) = none := plain_badNameIdx d0.en.length d0.en.length
+  rw [e, step_connect_ok (World.fresh d0 started flags) {} rfl hb, commConnect_stopped _ rfl]
+  exact ⟨rfl, rfl, rfl⟩
 
 /-! ### run-level statements (C11): the client's view over whole sessions, any answers -/
 
